@@ -43,6 +43,16 @@ def make_req(r_in, other, system, server, bad_file=None):
 def judge(req, obs):
     out = []
     m = req["meta"]
+    if m.get("two_endpoints"):
+        r0 = [e for e in e1.reqs_of(obs.get("events", [])) if e.get("ca") == "ca0"]
+        r1 = [e for e in e1.reqs_of(obs.get("events", [])) if e.get("ca") == "ca1"]
+        if r1:
+            out.append(("no-request-to-untrusted", "C18|no-request-to-untrusted|two-endpoints|roots-of-another-endpoint", "an endpoint is trusted only through its own, the global and the command-line roots",
+                        "%d request(s) reached the endpoint that was given no root (first: %s %s)" % (len(r1), r1[0]["method"], r1[0]["path"])))
+        ends = [e for e in obs.get("events", []) if e and e.get("ev") == "attempt_end" and e["cert"].startswith("t.example")]
+        if not (ends and ends[-1].get("success")):
+            out.append(("trusted-endpoint-used", "C18|trusted-endpoint-used|two-endpoints", "the endpoint with the right root is used", "requests to it: %d" % len(r0)))
+        return out
     reqs = e1.reqs_of(obs.get("events", []))
     atts = e1.split_attempts(obs.get("events", []))
     success = bool(atts and atts[0].end and atts[0].end.get("success"))
@@ -84,6 +94,21 @@ def run(ctx):
             for server in ("trusted", "untrusted-chain"):
                 reqs.append(make_req({"endpoint"} - {src} or {"global"}, None, None, server, bad_file=(src, kind)))
                 reqs.append(make_req(set(), None, None, server, bad_file=(src, kind)))
+    # two endpoints in one daemon with different root sets: trust must not leak from one to the other
+    for order in (0, 1):
+        for leak in ("endpoint", "cli-absent"):
+            doc = cfg.base_doc()
+            doc["endpoint"] = [{"name": "ep0", "url": "@CA0@", "tos_agreed": True, "root_certificates": ["@DIR@/pki/R.pem"]},
+                               {"name": "ep1", "url": "@CA1@", "tos_agreed": True}]
+            certs = [{"endpoint": "ep0", "account": "acc0", "identifiers": [cfg.ident("t.example")], "key_type": "ecdsa-p256", "hooks": list(cfg.STD_HOOK_NAMES)},
+                     {"endpoint": "ep1", "account": "acc0", "identifiers": [cfg.ident("u.example")], "key_type": "ecdsa-p256", "hooks": list(cfg.STD_HOOK_NAMES)}]
+            doc["certificate"] = certs if order == 0 else certs[::-1]
+            # both servers present chains signed by R: only ep0 was told to trust R
+            q = cfg.scenario(doc, cas=[{"name": "ca0", "tls": SERVER["trusted"], "url_host": "localhost"}, {"name": "ca1", "tls": SERVER["trusted"], "url_host": "localhost"}],
+                             phases=[{"attempts": 1, "wall_budget_ms": 15000}])
+            q["pkis"] = ["R", "U", "X"]
+            q["meta"] = {"two_endpoints": True, "order": order, "r_in": ["endpoint(ep0 only)"], "other": None, "system": None, "server": "trusted", "bad_file": None, "trusted": None}
+            reqs.append(q)
     obs = e1.run_all(ctx.pool, reqs, 120.0)
     for r, o in zip(reqs, obs):
         e1.check_obs(o)
